@@ -6,6 +6,7 @@ import (
 	"encoding/json"
 	"errors"
 	"fmt"
+	minttypes "github.com/cosmos/cosmos-sdk/x/mint/types"
 	"math/big"
 	"sort"
 	"strings"
@@ -180,6 +181,7 @@ func TestEngineQuery(t *testing.T) {
 		data  []byte
 		value int64
 		pure  bool // reads neither block context nor the sender balance: eth_call must predict delivery
+		al    ethtypes.AccessList
 	}
 	tr := func(to common.Address, amt int64) []byte {
 		return append(append([]byte{}, cpcabi.Erc20CpcInfo.ABI.Methods["transfer"].ID...), mustPack(cpcabi.Erc20CpcInfo.ABI.Methods["transfer"].Inputs.Pack(to, big.NewInt(amt)))...)
@@ -187,29 +189,29 @@ func TestEngineQuery(t *testing.T) {
 	mk := func() call {
 		switch r.Intn(9) {
 		case 0:
-			return call{"storer-set", &storer, []byte{1}, 0, true}
+			return call{"storer-set", &storer, []byte{1}, 0, true, nil}
 		case 1:
-			return call{"storer-clear", &storer, []byte{0}, 0, true}
+			return call{"storer-clear", &storer, []byte{0}, 0, true, nil}
 		case 2:
-			return call{"logger", &logger, []byte{byte(1 + r.Intn(4))}, 0, true}
+			return call{"logger", &logger, []byte{byte(1 + r.Intn(4))}, 0, true, nil}
 		case 3:
-			return call{"gassy", &gassy, nil, 0, false}
+			return call{"gassy", &gassy, nil, 0, false, nil}
 		case 4: // a precompile write under simulation
 			tb := f.tokens[51]
-			return call{"erc20-transfer", &tb, tr(c.wallets[2].GetEthAddress(), int64(1+r.Intn(5))), 0, true}
+			return call{"erc20-transfer", &tb, tr(c.wallets[2].GetEthAddress(), int64(1+r.Intn(5))), 0, true, nil}
 		case 5: // through a contract: two precompile writes, one in a reverted frame
 			tb := f.tokens[51]
 			sub := append(record(0, tb, tr(c.wallets[3].GetEthAddress(), 2)), 3)
 			script := append(append(record(0, tb, tr(c.wallets[2].GetEthAddress(), 1)), record(0, runner, sub)...), 2)
-			return call{"runner-erc20", &runner, script, 0, false}
+			return call{"runner-erc20", &runner, script, 0, false, nil}
 		case 6:
-			return call{"selfdestruct", &sd, common.LeftPadBytes(c.wallets[4].GetEthAddress().Bytes(), 20), 0, false}
+			return call{"selfdestruct", &sd, common.LeftPadBytes(c.wallets[4].GetEthAddress().Bytes(), 20), 0, false, nil}
 		case 7:
 			// runtime code that is not in the code store yet (a simulated deployment must not leave the blob behind)
 			fresh := append(append([]byte{}, codeLogger...), 0xfe, byte(r.U64()), byte(r.U64()), byte(r.U64()))
-			return call{"create", nil, initCode(fresh), 0, false}
+			return call{"create", nil, initCode(fresh), 0, false, nil}
 		default:
-			return call{"reverter", &reverter, nil, 0, true}
+			return call{"reverter", &reverter, nil, 0, true, nil}
 		}
 	}
 	ethCallReq := func(cl call, gas uint64) *evmtypes.EthCallRequest {
@@ -219,6 +221,10 @@ func TestEngineQuery(t *testing.T) {
 		if cl.data != nil {
 			args.Data = (*hexutil.Bytes)(&cl.data)
 		}
+		if cl.al != nil { // an EIP-2930 style call: a gas price AND an access list
+			args.AccessList = &cl.al
+			args.GasPrice = (*hexutil.Big)(big.NewInt(0))
+		}
 		bz, _ := json.Marshal(args)
 		return &evmtypes.EthCallRequest{Args: bz, GasCap: 25_000_000}
 	}
@@ -226,9 +232,45 @@ func TestEngineQuery(t *testing.T) {
 	var lastHeader = c.hdr
 	var lastTime = c.now
 
+	var lateToken *common.Address
+	lateHeight := int64(0)
 	for i := 0; i < n; i++ {
+		if i == n/3 && lateToken == nil {
+			// a custom precompile that did not exist at the earlier heights of this history
+			w := c.ctx()
+			coins := sdk.NewCoins(sdk.NewInt64Coin("ulate", 1_000_000))
+			require.NoError(t, c.s.ChainApp.BankKeeper().MintCoins(w, minttypes.ModuleName, coins))
+			require.NoError(t, c.s.ChainApp.BankKeeper().SendCoinsFromModuleToAccount(w, minttypes.ModuleName, sender.GetCosmosAddress(), coins))
+			a, err := c.s.ChainApp.CpcKeeper().DeployErc20CustomPrecompiledContract(w, "late", cpctypes.Erc20CustomPrecompiledContractMeta{Symbol: "LATE", Decimals: 6, MinDenom: "ulate"})
+			require.NoError(t, err)
+			lateToken = &a
+			c.finalize(nil)
+			lateHeight = c.app.LastBlockHeight()
+		}
 		before := storesDigest(c, app)
 		cl := mk()
+		if lateToken != nil && r.Chance(1, 4) {
+			cl = call{"late-erc20-transfer", lateToken, tr(c.wallets[2].GetEthAddress(), int64(1+r.Intn(5))), 0, true, nil}
+		}
+		if cl.to != nil && r.Chance(1, 4) { // some calls carry an access list (addresses and slots, touched or not)
+			cl.al = ethtypes.AccessList{{Address: *cl.to, StorageKeys: []common.Hash{{}, common.BigToHash(big.NewInt(1))}}, {Address: c.wallets[3].GetEthAddress()}}
+			cl.name += "+al"
+		}
+		if lateToken != nil && i%3 == 0 {
+			// the answer of a query at the latest height does not depend on which queries were served before it:
+			// ask, serve a query for a height BEFORE the deployment, ask again
+			probe := call{"late-erc20-name", lateToken, pack("name"), 0, true, nil}
+			var r1, r2 evmtypes.MsgEthereumTxResponse
+			query("/ethermint.evm.v1.Query/EthCall", ethCallReq(probe, 200_000), &r1)
+			queryHeight = lateHeight - 1
+			var old evmtypes.MsgEthereumTxResponse
+			query("/ethermint.evm.v1.Query/EthCall", ethCallReq(probe, 200_000), &old)
+			queryHeight = 0
+			query("/ethermint.evm.v1.Query/EthCall", ethCallReq(probe, 200_000), &r2)
+			if hex.EncodeToString(r1.Ret) != hex.EncodeToString(r2.Ret) || r1.VmError != r2.VmError || len(r2.Ret) == 0 || len(old.Ret) != 0 {
+				p.Oracle("C08-query-depends-on-earlier-query", "eth_call name() on a precompile deployed at height %d: latest=%x (%s), at height %d=%x, latest again=%x (%s)", lateHeight, r1.Ret, r1.VmError, lateHeight-1, old.Ret, r2.Ret, r2.VmError)
+			}
+		}
 		var ops []string
 		same := func(tag string) {
 			if after := storesDigest(c, app); after != before {
@@ -314,7 +356,11 @@ func TestEngineQuery(t *testing.T) {
 		price := new(big.Int).Add(baseFee, big.NewInt(1000))
 		nonce := c.seq(ctx, sender.GetCosmosAddress())
 		build := func(gas uint64, nonce uint64) ([]byte, *ethtypes.Transaction) {
-			return c.buildEthTx(ethTxArgs{from: sender, typ: 0, nonce: nonce, to: cl.to, value: big.NewInt(cl.value), gas: gas, gasPrice: price, feeCap: price, tip: big.NewInt(0), data: cl.data})
+			typ := 0
+			if cl.al != nil {
+				typ = 1
+			}
+			return c.buildEthTx(ethTxArgs{from: sender, typ: typ, nonce: nonce, to: cl.to, value: big.NewInt(cl.value), gas: gas, gasPrice: price, feeCap: price, tip: big.NewInt(0), data: cl.data, access: cl.al})
 		}
 		txBytes, _ := build(gasLimit, nonce)
 		_, _, _ = c.app.Simulate(txBytes)
